@@ -11,6 +11,11 @@ static auto& GetMap() {
   return sDefaults;
 }
 
+std::uint64_t NextFreeIndex() {
+  static std::uint64_t sNextFreeIndex = 0;
+  return sNextFreeIndex++;
+}
+
 void* GetImpl(std::uint64_t i) {
   auto* fiber = fault::Scheduler::Current();
   YACLIB_ASSERT(fiber);
